@@ -9,9 +9,10 @@ the consumer's type, of which the model knows nothing), closed enums (`L.enumOpe
 for a declared variable `v` whose default `d`
 * is valid for the declared type under the specification's rule **with list input coercion** (`C04R.ValidC` of the
   JSON spelling `valueJson d`),
-* satisfies `kindOk` (what JSON cannot say: no `null` / variable inside — the generator panics on them, see
+* satisfies `kindOk` (what JSON cannot say: no variable inside — the generator panics on it, see
   `null_default_panics` —, string literals not at enum positions and enum literals only at enum positions, float
-  tokens are not integer tokens),
+  tokens are not integer tokens; `null` is allowed wherever `ValidC` allows it: at nullable positions, where the
+  generator writes `None`),
 * nests fewer than 64 levels (the fuel `variablesItems` gives `literalOk`; beyond it the model answers `unmodelled`):
 
 * **`default_typechecks`**: `valueToLiteral` succeeds (it is the body `defaultBodies` lists under `default_<name>`:
